@@ -37,11 +37,37 @@ def load_known():
 def run_property(env, pid, tier, seed):
     mod = importlib.import_module("rules.%s" % pid.lower())
     rep = harness.Report(pid)
+    budget = int(os.environ.get("VERIF_BUDGET_S", "900" if tier == "quick" else "1800"))
+
+    class Budget(Exception):
+        pass
+
+    def on_alarm(signum, frame):
+        raise Budget()
+    old_handler = None
+    try:
+        import signal
+        old_handler = signal.signal(signal.SIGALRM, on_alarm)
+        signal.alarm(budget)
+    except Exception:
+        old_handler = None
     try:
         mod.check(env, rep, tier)
+    except Budget:
+        # fail closed: a tree the analysis cannot finish on within its budget is not a pass
+        rep.ob(pid + ".internal", "budget", False,
+               "cannot establish: the analysis did not finish within %d s on this tree (path explosion); fail closed" % budget)
     except Exception as e:  # fail closed: an analysis crash is not a pass
         rep.ob(pid + ".internal", "crash|" + type(e).__name__, False,
                "checker error (fail closed): %s\n%s" % (e, traceback.format_exc()[-1500:]))
+    finally:
+        try:
+            import signal
+            signal.alarm(0)
+            if old_handler is not None:
+                signal.signal(signal.SIGALRM, old_handler)
+        except Exception:
+            pass
     known = load_known()
     viol = []
     kn = []
